@@ -27,7 +27,6 @@ pub open spec fn g_init<T>() -> G<T> { G { dn: dn_init(), up: up_init() } }
 //@invpart fwd @C05 upstream end / error reaches the sink
 //@invpart pull @C14 demand conservation: every sink Pull is carried upstream while items remain
 pub open spec fn inv_safe<T>(h: Heap, g: G<T>, c: Cap) -> bool {
-    &&& h.taken <= c.max
     &&& (up_greeted(g.up.phase) ==> h.source_talkback is Some)
 }
 pub open spec fn inv_proto<T>(h: Heap, g: G<T>, c: Cap) -> bool {
@@ -44,6 +43,7 @@ pub open spec fn inv_term<T>(h: Heap, g: G<T>, c: Cap) -> bool {
     &&& g.up.terms == (if g.up.phase == Up::EndedByUs { 1nat } else { 0nat })
 }
 pub open spec fn inv_data<T>(h: Heap, g: G<T>, c: Cap) -> bool {
+    &&& h.taken <= c.max
     &&& g.dn.data.len() == h.taken
     &&& g.dn.data =~= g.up.data.take(h.taken as int)
     &&& g.up.data.len() >= h.taken
